@@ -219,6 +219,11 @@ pub fn decode_table() -> Vec<DecodeCase> {
                     "jalr-paren",
                 );
             }
+            add(
+                format!("jalr {}, ({})", rn(a), rn(b)),
+                vec![Inst::Jalr(a, b, 0)],
+                "jalr-paren-noimm",
+            );
             // register pseudo-instructions
             add(format!("mv {}, {}", rn(a), rn(b)), vec![Inst::I(IOp::Addi, a, b, 0)], "mv");
             add(format!("neg {}, {}", rn(a), rn(b)), vec![Inst::R(ROp::Sub, a, 0, b)], "neg");
@@ -464,6 +469,32 @@ impl C08 {
                 Inst::Jal(1, l) => Some(l.clone()),
                 _ => None,
             };
+            // an instruction may be called an unconditional jump only if it transfers
+            // control for all operand values
+            if node.is_unconditional_jump() {
+                let always = match exp {
+                    Inst::Jal(..) | Inst::Jalr(..) => true,
+                    Inst::Branch(op, a, b, _) => {
+                        let g = grid();
+                        g.iter().all(|x| {
+                            g.iter().all(|y| {
+                                let va = if *a == 0 { 0 } else { *x };
+                                let vb = if *b == 0 { 0 } else if b == a { *x } else { *y };
+                                op.taken(va, vb)
+                            })
+                        })
+                    }
+                    _ => false,
+                };
+                if !always {
+                    acc.violation(
+                        format!("C08|called-unconditional-but-conditional|{}|{}", dc.form, mnemonic),
+                        case,
+                        witness("is_unconditional_jump() holds for an instruction that can fall through", json!(exp.base_text())),
+                    );
+                    return;
+                }
+            }
             let got_jump = node.jumps_to().map(|l| l.get().as_str().to_string());
             let got_call = node.calls_to().map(|l| l.get().as_str().to_string());
             if exp_jump != got_jump || exp_call != got_call || exp.is_ret() != node.is_return() {
